@@ -4,12 +4,14 @@ import (
 	"fmt"
 	"sort"
 	"strings"
+	"time"
 
 	appsv1 "k8s.io/api/apps/v1"
 	corev1 "k8s.io/api/core/v1"
 	storagev1 "k8s.io/api/storage/v1"
 	"k8s.io/apimachinery/pkg/api/resource"
 	metav1 "k8s.io/apimachinery/pkg/apis/meta/v1"
+	"k8s.io/apimachinery/pkg/types"
 	"sigs.k8s.io/controller-runtime/pkg/client"
 
 	v1 "sigs.k8s.io/karpenter/pkg/apis/v1"
@@ -483,4 +485,10 @@ func podNames(ps []*corev1.Pod) string {
 	}
 	sort.Strings(n)
 	return strings.Join(n, "+")
+}
+
+func metaT(t time.Time) metav1.Time { return metav1.Time{Time: t} }
+
+func metaOwner(kind, name, uid string, ctrl *bool) metav1.OwnerReference {
+	return metav1.OwnerReference{APIVersion: "karpenter.sh/v1", Kind: kind, Name: name, UID: types.UID(uid), BlockOwnerDeletion: ctrl}
 }
